@@ -408,8 +408,9 @@ class ActiveMonitor : public Monitor {
     o->push_back((char)(failed | (resc << 1) | (rcrcPos << 2) | (rGood << 3) | (attemptS << 4)));
     o->push_back((char)(autosynFrom | (lossWinnerMaster << 4) | (lossTraffic << 5) | (armedTimeout << 6) | (armedSyn << 7)));
     o->push_back((char)lastW); o->push_back((char)arbAddr); o->push_back((char)(synsSinceLoss + 1)); o->push_back((char)rcrc);
-    int sm = silenceMs >= 40 ? (silenceMs >= (int)(10 * ref::masterNumber(sc.own) + 51) ? 2 : 1) : 0;
-    o->push_back((char)sm);
+    // the accumulated silence only matters for the AUTO-SYN rule; kept exact up to beyond the longest interval
+    int sm = sc.genSyn ? (silenceMs > 400 ? 400 : silenceMs) : 0;
+    o->push_back((char)(sm & 0xff)); o->push_back((char)(sm >> 8));
     o->push_back((char)resp.size()); o->append((const char*)resp.data(), resp.size());
     for (int p : pending) o->push_back((char)p);
     o->push_back((char)cands.size()); for (int c : cands) o->push_back((char)c);
